@@ -759,6 +759,14 @@ func runNoiseC07(c *hx.Ctx) {
 					if k >= l || len(cls) == 0 {
 						break
 					}
+					// quick tier, outside the reference world: inside the cleartext payload of message 1 every cut fails
+					// the same way (the payload no longer parses), so only every 6th length is tried there
+					if c.Tier == "quick" && chain > 1 && !targetInit && k > 2*w.dl+4 && k < l-4 {
+						k += 5
+						if k > l-4 {
+							k = l - 4
+						}
+					}
 				}
 			}
 		}
